@@ -139,9 +139,12 @@ def run_scenario(ctx, name, make_world, bound, max_runs, random_runs):
 
 
 # --------------------------------------------------------------------------- scenarios
-def world_sn(k, m):
+def world_sn(k, m, start=0):
+    """k originators x m sequence numbers each; start = value of the counter beforehand (near 65534 the counter wraps,
+    Router.get_sequence_number counts modulo 2^16 - 1)"""
     def make():
         router, ll = fresh_router()
+        router.sequence_number = start
         out = [[] for _ in range(k)]
 
         def body(i):
@@ -154,8 +157,8 @@ def world_sn(k, m):
             bad = []
             if len(set(vals)) != len(vals):
                 bad.append(("sn_duplicate", "two originated packets got the same sequence number", sorted(vals)))
-            if sorted(vals) != list(range(1, k * m + 1)):
-                bad.append(("sn_values", "sequence numbers are not 1..n", sorted(vals)))
+            if sorted(vals) != sorted((start + i) % 65535 for i in range(1, k * m + 1)):
+                bad.append(("sn_values", "sequence numbers are not the next n values of the counter", sorted(vals)))
             return bad
         return fns, check
     return make
@@ -489,7 +492,7 @@ def world_mixed():
 
 def run(ctx):
     ctx.rule = ("interleavings of the real Router at source-line granularity (settrace scheduler, cooperative locks): "
-                "scenario sn (2-3 threads x 1-3 get_sequence_number), cbf (duplicate overheard || timer expiry || fresh packet || "
+                "scenario sn (2-3 threads x 1-3 get_sequence_number, from a fresh counter and from a counter about to wrap at 2^16 - 1), cbf (duplicate overheard || timer expiry || fresh packet || "
                 "stale timer), cbf_dup (a copy of a packet that is still contending is overheard after a burst of 1..L+3 packets of its "
                 "source, L = itsGnDPLLength in 1..16, so that the copy is still in / has just left / has long left the duplicate "
                 "packet list, or the source's entry has expired; || its timer expiry || a further reception || stale timer: boundary "
@@ -504,6 +507,8 @@ def run(ctx):
     try:
         plan = [("sn_2x2", world_sn(2, 2), 2, 150 if quick else 3000, 40 if quick else 600),
                 ("sn_3x1", world_sn(3, 1), 2, 120 if quick else 3000, 30 if quick else 600),
+                ("sn_wrap_2x2", world_sn(2, 2, 65532), 2, 100 if quick else 3000, 30 if quick else 600),
+                ("sn_wrap_3x1", world_sn(3, 1, 65533), 2, 80 if quick else 3000, 20 if quick else 600),
                 ("cbf", world_cbf(), 2, 250 if quick else 6000, 80 if quick else 1500),
                 ("cbf_dup_ring", world_cbf_dup(8, 9, 0, third="fresh", again=True), 2, 60 if quick else 2500, 20 if quick else 600),
                 ("cbf_dup_expired", world_cbf_dup(8, 1, 0, stale=True, third="dup_same", again=True), 2, 40 if quick else 2500,
